@@ -31,7 +31,7 @@ for i in range(S.budget):
     mode = rng.choice(['torque', 'power', 'None'])
     where = {'sections': secs, 'slurry': sp, 'mode': mode}
     try:
-        pl = pc.make_pipeline(rng, secs, sp, limited=mode)
+        pl = pc.make_pipeline(rng, secs, sp, limited=mode, record=where)
         flow_list = [PipeObj.Pipe(diameter=pl.slurry.Dp).flow(v) for v in pl.slurry.vls_list]
         qimin = pl.qimin(flow_list)
     except Exception as e:
